@@ -1,0 +1,38 @@
+//! Verification hooks, compiled only with the cargo feature `verif`.
+//!
+//! Process-global, resettable callbacks used by an external test harness:
+//! `point` marks a schedule point inside a worker loop, `write_log` reports
+//! every write issued through `MMWriter::write_at`. Both are no-ops while
+//! nothing is registered.
+use std::sync::{Arc, RwLock};
+
+pub type PointFn = Arc<dyn Fn(&'static str, usize) + Send + Sync>;
+pub type WriteFn = Arc<dyn Fn(usize, usize, usize) + Send + Sync>;
+
+static POINT: RwLock<Option<PointFn>> = RwLock::new(None);
+static WRITE: RwLock<Option<WriteFn>> = RwLock::new(None);
+
+pub fn set_point(f: Option<PointFn>) {
+    *POINT.write().unwrap_or_else(|e| e.into_inner()) = f;
+}
+
+pub fn set_write_log(f: Option<WriteFn>) {
+    *WRITE.write().unwrap_or_else(|e| e.into_inner()) = f;
+}
+
+/// Schedule point `site`; `n` is the ordinal of the record just taken
+/// (`usize::MAX` at worker exit).
+pub fn point(site: &'static str, n: usize) {
+    let f = POINT.read().unwrap_or_else(|e| e.into_inner()).clone();
+    if let Some(f) = f {
+        f(site, n);
+    }
+}
+
+/// A write of `len` elements at `pos` into a buffer of `cap` elements.
+pub fn write_log(pos: usize, len: usize, cap: usize) {
+    let f = WRITE.read().unwrap_or_else(|e| e.into_inner()).clone();
+    if let Some(f) = f {
+        f(pos, len, cap);
+    }
+}
